@@ -59,6 +59,7 @@ fn main() {
         println!("INFRA tool binary {} missing", vpmodel::run::tool_bin().display());
         std::process::exit(2);
     }
+    vpmodel::run::cleanup_stale_roots();
     match argv[1].as_str() {
         "check" => {
             let id = argv[2].clone();
